@@ -38,6 +38,7 @@ func mkReader(s *simrt.Sim, data []byte, allowFail bool) *simio.Reader {
 	if allowFail && s.Choose(5, "srcfail") == 0 {
 		r.FailAt = s.Choose(len(data)+1, "failat")
 		r.FailErr = simio.FailureKinds[s.Choose(len(simio.FailureKinds), "srcerrkind")]
+		r.ErrWithData = s.Choose(2, "errwithdata") == 0
 	}
 	return r
 }
@@ -97,6 +98,12 @@ func limit(s *simrt.Sim) {
 		// the source fails before the limit is crossed: its error surfaces (a clean EOF would be a lie)
 		if err == io.EOF {
 			s.Fail("limit-error-swallowed", desc+": the source failed but the stream ended with EOF")
+		}
+	case l > n && src.FailAt == n+1:
+		// the source fails exactly when it delivers the byte that crosses the limit: either error is an
+		// honest end, a clean EOF is not
+		if err == io.EOF {
+			s.Fail("limit-oversize-not-reported", desc+fmt.Sprintf(": the source is longer than N but the stream ended with EOF after %d bytes", len(got)))
 		}
 	case l > n && (src.FailAt < 0 || src.FailAt > n):
 		if !errors.Is(err, streams.ErrStreamTooLarge) {
